@@ -1142,6 +1142,113 @@ def from_array_case(impl, rng, a, vals, lib_chosen_only=False):
     return lit_fcase(a, cm, spec), (None if not w else "from_array(%r, common=%r) = %r: %s" % (a.tolist(), cm, spec, w)), cm
 
 
+def interleaves(a, group):
+    """True when, in some column, the rows of the input values in `group` (merged into ONE output value) are not laid
+    out as ascending blocks in ascending order of the input value - i.e. plain concatenation per value is unsorted."""
+    cols = [a] if a.ndim == 1 else [a[:, c] for c in range(a.shape[1])]
+    for col in cols:
+        last = -1
+        for v in sorted(group):
+            rows = numpy.nonzero(col == v)[0]
+            if len(rows):
+                if rows[0] < last:
+                    return True
+                last = rows[-1]
+    return False
+
+
+def gen_mapping(rng, a, cm):
+    """A mapping for from_array(a, common=cm, mapping=...): every distinct input value and the given common must be a
+    key.  Kinds: injective | many-to-one onto a non-common value | many-to-one onto the common | mixed (random)."""
+    keys = sorted(set(int(x) for x in a.flat) | ({cm} if cm is not None else set()))
+    extra = [k for k in (11, -4) if k not in keys and rng.random() < 0.3]        # keys that do not occur are harmless
+    kind = rng.choice(["injective", "merge", "merge", "merge", "onto-common", "mixed"])
+    targets = [0, 1, 2, 3, 5, -1, 9]
+    m = {}
+    if kind == "injective" or len(keys) < 2:
+        kind = "injective"
+        for k, t in zip(keys + extra, rng.sample(range(-3, 12), len(keys) + len(extra))):
+            m[k] = t
+    elif kind == "merge":
+        t = rng.choice(targets)
+        group = rng.sample(keys, rng.randint(2, min(3, len(keys))))
+        free = [x for x in range(-6, 14) if x != t]
+        rng.shuffle(free)
+        for k in keys + extra:
+            m[k] = t if k in group else free.pop()
+    elif kind == "onto-common":
+        anchor_k = cm if cm is not None else rng.choice(keys)
+        group = set(rng.sample(keys, rng.randint(1, min(3, len(keys))))) | {anchor_k}
+        t = rng.choice(targets)
+        free = [x for x in range(-6, 14) if x != t]
+        rng.shuffle(free)
+        for k in keys + extra:
+            m[k] = t if k in group else free.pop()
+    else:
+        for k in keys + extra:
+            m[k] = rng.choice(targets[:4])
+    return m, kind
+
+
+def from_array_mapped_case(impl, rng, a):
+    """from_array(a, [counts], common = None | a present value | an absent value, mapping = ...) on a 1-D/2-D array.
+    Judged by py_wf (validate(True) + range/arity/dtype/non-emptiness/sortedness) and by the mapped dense array.
+    Returns (literal | None, problem | None, info dict)."""
+    present = sorted(set(int(x) for x in a.flat))
+    cm = rng.choice([None, None] + (present[:1] + [rng.choice(present)] if present else []) + [NEVER])
+    m, kind = gen_mapping(rng, a, cm)
+    if cm is None and a.size == 0:
+        cm = rng.choice(sorted(m)) if m else None
+        if cm is None:
+            cm, m, kind = 0, {0: rng.choice([0, 4])}, "injective"
+    counts = None
+    if rng.random() < 0.4:
+        vs, cs = numpy.unique(a, return_counts=True)
+        counts = dict(zip(vs.tolist(), cs.tolist()))
+    mapped = numpy.vectorize(lambda v: m[v], otypes=[int])(a) if a.size else a.astype(int)
+    mc = None if cm is None else m[cm]
+    groups = {}
+    for k in present:
+        groups.setdefault(m[k], []).append(k)
+    merged = [g for t, g in groups.items() if len(g) > 1]
+    info = {"kind": kind, "counts": counts is not None, "common": "library-chosen" if cm is None else ("present" if cm in present else "absent"),
+            "merged_groups": len(merged), "interleaving": any(interleaves(a, g) for g in merged)}
+    call = "from_array(%r, counts=%r, common=%r, mapping=%r)" % (a.tolist(), counts, cm, m)
+    try:
+        idx = impl.iindex.from_array(a, counts=None if counts is None else dict(counts), common=cm, mapping=dict(m))
+    except Exception as e:  # noqa
+        return None, "%s raised %s: %s" % (call, type(e).__name__, str(e)[:120]), info
+    spec = spec_of(idx)
+    w = py_wf(idx)
+    if not w and not (sane_for_densify(spec) and densify(spec).shape == mapped.shape and (densify(spec) == mapped).all()):
+        w = "dense content differs from the mapped array %r" % (mapped.tolist(),)
+    if not w and mc is not None and idx.common != mc:
+        w = "common is %r, mapping[common] is %r" % (idx.common, mc)
+    if not w and mc is None and not most_frequent(idx.common, mapped):
+        w = "library-chosen common %r is not a most frequent mapped value" % (idx.common,)
+    info["call"] = call
+    info["args"] = {"array": a.tolist(), "shape": list(a.shape), "counts": None if counts is None else [[k, v] for k, v in counts.items()], "common": cm,
+                    "mapping": [[k, v] for k, v in m.items()]}
+    return lit_fcase(mapped, mc, spec), (None if not w else "%s = %r: %s" % (call, spec, w)), info
+
+
+def fresh_array(rng):
+    """A fresh small array for the from_array(mapping) stream: few distinct values whose rows interleave (numpy.where
+    path); now and then >= 5 distinct values in a long sparse array (row-scan path)."""
+    if rng.random() < 0.04:
+        n = rng.choice([110, 130])
+        a = numpy.zeros(n, dtype=int)
+        for v in (1, 2, 3, 4):
+            a[rng.randrange(n)] = v
+        a[rng.randrange(n)] = rng.choice([1, 2])
+        return a if rng.random() < 0.6 else a.reshape(n // 2, 2)
+    vals = rng.sample([0, 1, 2, 3, 5, -1], rng.randint(2, 4))
+    n = rng.randint(2, 10)
+    shape = (n,) if rng.random() < 0.5 else (n, rng.randint(1, 3))
+    size = n * (shape[1] if len(shape) > 1 else 1)
+    return numpy.array([rng.choice(vals) for _ in range(size)], dtype=int).reshape(shape)
+
+
 # --------------------------------------------------------------------------------------------
 # the check shared by props/c06.py, c07.py, c15.py
 # --------------------------------------------------------------------------------------------
@@ -1151,7 +1258,7 @@ SIZES = {"quick": (1500, 6), "thorough": (16000, 12)}
 ANCHORS = {  # anchored mechanisms (function names in iindexes.py) whose executed lines are measured
     "C06": ["shift_common", "append", "update", "filtered", "sliced", "slices1d", "reindexed", "collapsed", "copy",
             "column_stack", "union_update", "intersection_update", "difference_update", "get", "items", "to_dict", "common_rowids"],
-    "C07": ["validate", "set_if", "shift_common", "append", "update", "filtered", "reindexed", "collapsed", "column_stack"],
+    "C07": ["validate", "from_array", "set_if", "shift_common", "append", "update", "filtered", "reindexed", "collapsed", "column_stack"],
     "C15": ["shift_common", "from_array", "append", "filtered", "collapsed", "__eq__", "__ne__"],
 }
 
@@ -1240,6 +1347,25 @@ def run_check(ctx, prop):
     pool = []                        # final (index, dense array) of earlier histories, for C15's cross-history comparisons
     indx_path = os.path.join(ctx.scratch, "hist.indx")
     n_load_max = 3000 if ctx.tier == "quick" else 12000
+    mcases, mowners = [], []
+    map_kinds = collections.Counter()
+
+    def add_mapped(arr, owner):
+        lit, why, info = from_array_mapped_case(impl, rng, arr)
+        map_kinds[info["kind"]] += 1
+        map_kinds["with counts" if info["counts"] else "without counts"] += 1
+        map_kinds["common " + info["common"]] += 1
+        if info["merged_groups"]:
+            map_kinds["cases with a many-to-one merge onto a non-common or common value"] += 1
+        if info["interleaving"]:
+            map_kinds["cases whose merged input values have interleaving rows"] += 1
+        if lit is not None:
+            mcases.append(lit)
+            mowners.append(owner)
+        if why:
+            extra_problems.append(("from_array-mapping:illformed", why, {"call": info.get("call"), "from_array_args": info.get("args"),
+                                   "how": "iindex.from_array(array, counts, common, mapping).validate(True) + range/arity/dtype/sortedness; dense == mapped array"}))
+
     for hn in range(n_hist):
         if hn == 0:
             cov.start()
@@ -1289,6 +1415,10 @@ def run_check(ctx, prop):
                         fowners.append((hn, i))
                     if why:
                         extra_problems.append(("from_array:illformed", why, {"array": exp.tolist(), "common": cm, "how": "iindex.from_array(array, common=common).validate(True)"}))
+                # (c) from_array WITH a mapping (injective / many-to-one onto a non-common value / onto the common; with and
+                #     without counts) on the same dense array
+                if exp.ndim <= 2 and len(mcases) < n_load_max and rng.random() < 0.6:
+                    add_mapped(exp, (hn, i))
         if prop == "C15":
             # from_array without a common (library-chosen) on every dense array the history reached
             for i, st in enumerate(h.steps):
@@ -1314,8 +1444,11 @@ def run_check(ctx, prop):
                     eqcases.append(lit)
                     eqowners.append(hn)
                 eq_total += 1
+    if prop == "C07":
+        for _ in range(1500 if ctx.tier == "quick" else 8000):      # fresh small arrays aimed at interleaving merges
+            add_mapped(fresh_array(rng), None)
     cov.stop()
-    ctx.evaluations = len(cases) + (len(eqcases) if prop == "C15" else 0) + len(lcases) + len(fcases)
+    ctx.evaluations = len(mcases) + len(cases) + (len(eqcases) if prop == "C15" else 0) + len(lcases) + len(fcases)
     ctx.coverage["histories"] = n_hist
     ctx.coverage["steps"] = len(cases)
     ctx.coverage["operation_distribution"] = dict(opdist)
@@ -1333,7 +1466,7 @@ def run_check(ctx, prop):
     errors = list(res.errors)
     explain = res.explain
     ctx.coverage["model_disagreements"] = len(failing)
-    res2 = res3 = res4 = None
+    res2 = res3 = res4 = res5 = None
     if prop == "C15":
         res2 = core.run_cases("c15eq", PRELUDE, eqcases, "ecase", "chk15eq", "explain_eq", shard_size=600)
         ctx.coverage["eq_cases"] = len(eqcases)
@@ -1352,7 +1485,11 @@ def run_check(ctx, prop):
         ctx.coverage["from_array_common_argument"] = dict(fa_commons)
         ctx.coverage["indx_load_disagreements"] = len(res3.failing)
         ctx.coverage["from_array_disagreements"] = len(res4.failing)
-        errors += res3.errors + res4.errors
+        res5 = core.run_cases("c07frommap", PRELUDE, mcases, "fcase", "chk07from", "explain_from", shard_size=600)
+        ctx.coverage["from_array_with_mapping_cases"] = len(mcases)
+        ctx.coverage["from_array_with_mapping_distribution"] = dict(map_kinds)
+        ctx.coverage["from_array_with_mapping_disagreements"] = len(res5.failing)
+        errors += res3.errors + res4.errors + res5.errors
     if prop in ("C06", "C07"):
         # evidence only: how many generated steps lie inside the hypotheses (HistorySpec.args_ok) of the history theorems
         ok_args, _ = core.coq_make(["theories/IIndex/ArgsCheck.vo"])
@@ -1403,7 +1540,7 @@ def run_check(ctx, prop):
         ctx.report(sig, text[:300], rep)
     if prop in ("C07", "C15"):
         done = set()
-        for sig, why, rep in extra_problems:
+        for sig, why, rep in sorted(extra_problems, key=lambda x: len(json.dumps(x[2], default=str))):      # smallest input first
             if sig not in done:
                 done.add(sig)
                 rep["count_of_this_signature"] = sum(1 for x in extra_problems if x[0] == sig)
@@ -1416,7 +1553,7 @@ def run_check(ctx, prop):
         eq_unexplained = [k for k in res2.failing if eqowners[k] not in bad_h]
     if not extra_problems:
         load_unexplained = list(res3.failing) if res3 is not None else []
-        from_unexplained = list(res4.failing) if res4 is not None else []
+        from_unexplained = (list(res4.failing) if res4 is not None else []) + ([len(fcases) + k for k in res5.failing] if res5 is not None else [])
     if not pr["ok"] or not ok_chk or errors or unexplained or eq_unexplained or load_unexplained or from_unexplained:
         what = []
         if not pr["ok"]:
@@ -1439,8 +1576,8 @@ def run_check(ctx, prop):
                                    "coq_case": cases[k][:3000]} for k in unexplained[:5]],
             "disagreeing_eq_cases": [eqcases[k][:2000] for k in eq_unexplained[:5]],
             "disagreeing_load_cases": [lcases[k][:2000] for k in load_unexplained[:5]],
-            "disagreeing_from_array_cases": [fcases[k][:2000] for k in from_unexplained[:5]],
-            "explain": (explain or "")[-3000:] + "".join((r.explain or "")[-2000:] for r in (res2, res3, res4) if r is not None),
+            "disagreeing_from_array_cases": [(fcases + mcases)[k][:2000] for k in from_unexplained[:5]],
+            "explain": (explain or "")[-3000:] + "".join((r.explain or "")[-2000:] for r in (res2, res3, res4, res5) if r is not None),
             "search": "%d steps of %d histories judged by the direct oracles found no failing input" % (len(cases), n_hist)}, found_input=False)
 
 
@@ -1455,6 +1592,21 @@ def replay_check(ctx, prop, path):
         for p in st.problems:
             print("one-step replay: %s %s: %s" % p)
             found.append(p)
+    if r.get("from_array_args"):
+        g = r["from_array_args"]
+        a = numpy.array(g["array"], dtype=int).reshape(g["shape"])
+        m = {k: v for k, v in g["mapping"]}
+        try:
+            idx = impl.iindex.from_array(a, counts=None if g["counts"] is None else {k: v for k, v in g["counts"]}, common=g["common"], mapping=dict(m))
+            w = py_wf(idx)
+            mapped = numpy.vectorize(lambda v: m[v], otypes=[int])(a) if a.size else a
+            if not w and not (densify(spec_of(idx)) == mapped).all():
+                w = "dense content differs from the mapped array"
+        except Exception as e:  # noqa
+            w = "raised %s: %s" % (type(e).__name__, e)
+        if w:
+            print("from_array replay: %s" % w)
+            found.append(("C07", "from_array-mapping:illformed", w))
     if "history" in r:
         for (i, p, sig, text) in replay_history(impl, ctx.rng, r["history"], own=prop):
             print("history replay, step %d: %s %s: %s" % (i, p, sig, text))
@@ -1465,6 +1617,6 @@ def replay_check(ctx, prop, path):
     ctx.nontrivial.update(range(max(2, ctx.evaluations)))
     mine = [f for f in found if f[0] == prop]
     if mine:
-        ctx.report(mine[0][1], "replayed failing input still fails: " + mine[0][2][:300], {k: r[k] for k in ("history", "one_step", "failing_step") if k in r})
+        ctx.report(mine[0][1], "replayed failing input still fails: " + mine[0][2][:300], {k: r[k] for k in ("history", "one_step", "failing_step", "from_array_args") if k in r})
     else:
         print("replay: the recorded input no longer fails")
